@@ -459,7 +459,7 @@ fn normalised(m: &Model) -> Model {
 
 /// every field, by value: the Debug text lists every field and prints each f32 with its shortest
 /// round-tripping decimal, so equal texts <=> equal field values (independent of serde)
-fn same_model(a: &Model, b: &Model) -> Result<(), String> {
+pub fn same_model(a: &Model, b: &Model) -> Result<(), String> {
     let (da, db) = (format!("{:?}", normalised(a)), format!("{:?}", normalised(b)));
     if da == db {
         return Ok(());
